@@ -10,6 +10,8 @@ import Cfdm.Driver.C16
 import Cfdm.Driver.C19
 import Cfdm.Driver.C07
 import Cfdm.Driver.C08
+import Cfdm.Driver.C02
+import Cfdm.Driver.C04
 open Cfdm.Driver
 
 def step (line : String) : String :=
@@ -31,6 +33,8 @@ def step (line : String) : String :=
       | ["C19", sub] => C19.run sub kv
       | ["C07", sub] => C07.run sub kv
       | ["C08", sub] => C08.run sub kv
+      | ["C02", sub] => C02.run sub kv
+      | ["C04", sub] => C04.run sub kv
       | _ => "bad-op"
 
 partial def loop (h : IO.FS.Stream) : IO Unit := do
